@@ -6,6 +6,7 @@ UB = ['undef', 'oob', 'ubsan', 'fpcast', 'null', 'overflow', 'uaf', 'shift', 'di
 common.register_models('abs_v1_one', lambda eng: api_common.install_abstract_v1(eng, rows_mode='one'))
 common.register_models('abs_v1_any', lambda eng: api_common.install_abstract_v1(eng, rows_mode='any'))
 common.register_models('abs_v1_fail', lambda eng: api_common.install_abstract_v1(eng, fail='one', rows_mode='one'))
+common.register_models('abs_v1_failr', lambda eng: api_common.install_abstract_v1(eng, fail='one', rows_mode='one', fail_reads=True))
 common.register_models('abs_v1_fail_any', lambda eng: api_common.install_abstract_v1(eng, fail='one', rows_mode='any'))
 _LL = {}
 def ll(defines=(), tag=''):
@@ -28,7 +29,8 @@ def jobs_c14(ck):
     out = []
     for op, name in sorted(api_common.MUTATORS_V2.items()):
         for sc in ([10, 0] if TIER == 'quick' else schemas()):
-            for mdl in ('abs_v1_fail', 'abs_v1_fail_any'):
+            for mdl in ('abs_v1_fail', 'abs_v1_fail_any', 'abs_v1_failr'):
+                if mdl == 'abs_v1_failr' and sc != 10 and TIER == 'quick': continue
                 out.append(dict(harness='h_api_v1.cpp', ll=ll(), entry='h_op', params={'op': op, 'schema': sc, 'wide': 0, 'count': 3, 'gen': 1}, models=[mdl], known=ck.known, must_reach=['call'],
                                 hooks=('c14', 'HOOKS'), replay='none', allow_throw='none', other_property_kinds=UB, eng_opts={'max_paths': 6000}, label='v1 ' + name, max_bugs=12))
     return out
